@@ -126,3 +126,27 @@ pub broadcast proof fn lemma_esem_unop(op: UnOp, a: Box<Expr>, ienv: IEnv)
     ensures #[trigger] esem(Expr::UnOp(op, a), ienv) == (match esem(*a, ienv) { Some(x) => (match op { UnOp::Neg => Some(-x), UnOp::Not => Some(b2r(!truthy(x))) }), None => None::<real> }) {}
 pub broadcast group semb { lemma_sem_abs_b, lemma_sem_not_b, lemma_sem_xor_b, lemma_sem_implies_b, lemma_sem_iff_b,
     lemma_esem_number, lemma_esem_variable, lemma_esem_abs, lemma_esem_not, lemma_esem_xor, lemma_esem_implies, lemma_esem_iff, lemma_esem_binop, lemma_esem_unop }
+// prefixes of a defined fold / conjunction are defined, and so is every operand
+pub proof fn lemma_efold_prefix(es: Seq<Expr>, ienv: IEnv, is_min: bool, n: int, i: int)
+    requires 1 <= i <= n <= es.len(), esem_fold(es, ienv, is_min, n) is Some
+    ensures esem_fold(es, ienv, is_min, i) is Some, esem(es[i - 1], ienv) is Some
+    decreases n
+{ if i < n { lemma_efold_prefix(es, ienv, is_min, n - 1, i); } }
+pub proof fn lemma_eall_prefix(es: Seq<Expr>, ienv: IEnv, is_and: bool, n: int, i: int)
+    requires 0 <= i <= n <= es.len(), esem_all(es, ienv, is_and, n) is Some
+    ensures esem_all(es, ienv, is_and, i) is Some, i >= 1 ==> esem(es[i - 1], ienv) is Some
+    decreases n
+{ if i < n { lemma_eall_prefix(es, ienv, is_and, n - 1, i); } }
+pub proof fn lemma_eall_one(es: Seq<Expr>, ienv: IEnv, is_and: bool, n: int, j: int)
+    requires 0 <= j < n <= es.len(), esem(es[j], ienv) matches Some(x) ==> truthy(x) != is_and
+    ensures esem_all(es, ienv, is_and, n) matches Some(y) ==> truthy(y) != is_and
+    decreases n
+{ if n - 1 > j { lemma_eall_one(es, ienv, is_and, n - 1, j); } }
+pub proof fn lemma_eall_uniform(es: Seq<Expr>, ienv: IEnv, is_and: bool, n: int)
+    requires 0 <= n <= es.len(), forall|k: int| 0 <= k < n ==> (esem(#[trigger] es[k], ienv) matches Some(x) ==> truthy(x) == is_and)
+    ensures esem_all(es, ienv, is_and, n) matches Some(y) ==> truthy(y) == is_and && (y == 0real || y == 1real)
+    decreases n
+{ if n > 0 { lemma_eall_uniform(es, ienv, is_and, n - 1); } }
+pub proof fn lemma_eall_01(es: Seq<Expr>, ienv: IEnv, is_and: bool, n: int)
+    requires 0 <= n <= es.len() ensures esem_all(es, ienv, is_and, n) matches Some(y) ==> (y == 0real || y == 1real)
+{}
